@@ -78,7 +78,7 @@ def headerin (i : Info) (bos : Bool) (pkt : ByteArray) : Info × Int :=
     else if !i.ci then (i, OV_EFAULT)
     else if i.setup.isSome then (i, OV_EBADHEADER)
     else match (unpackSetup i.channels).run r7 with
-      | (Except.ok s, _) => ({ i with setup := some s }, 0)
+      | (Except.ok s, _) => ({ i with setup := some s.val }, 0)
       | _ => ({ Info.cleared with vendor := i.vendor }, OV_EBADHEADER)
   else (i, OV_EBADHEADER)
 
